@@ -60,6 +60,15 @@ CHECKS.update({
             'strings with type=, ints x 10**30 and ints beyond float range; constructor, __call__, is_marginal, str, ==, deepcopy, with_args compared',
             'trusted: TLC, the concretisation tables in checks/c07.py (only comparisons exact in binary floating point are generated)',
             'DESIGN.md 5/C07'),
+    'C13': ('TLA+ spec AdbFraming.tla: corruption table + two-writer/two-reader lock protocol checked by TLC (and shown to fail without locks); table rows replayed and the real adapter explored by preemption-bounded DFS under a deterministic scheduler',
+            'every (command x corruption x payload length) row of the table with 3 argument vectors and payloads over {0x00,0xff,0x0a} (thorough: 4096-byte payloads) is written '
+            'through and fed back into the real AdbTransportAdapter; all interleavings of two writers / two readers with <=2 (quick) / <=3 (thorough) preemptions are executed on '
+            'the real adapter and judged against NoInterleaveOnWire / WholeFramePerReader',
+            'trusted: TLC, vf/sched.py + vf/explore.py (preemption only at synchronisation operations and transport calls), the fake chunk transport', 'DESIGN.md 5/C13'),
+    'C16': ('TLA+ spec Fastboot.tla (SinglePacketCommand, ChunkAtMostK, ExactImageInOrder, Contiguous, ProgressCumulative, ...) checked by TLC for every device script; every run replayed on the real FastbootCommands',
+            'all device response scripts over {INFO,OKAY,DATA(match),DATA(mismatch),FAIL,junk} up to length 3 (quick) / 4 (thorough) x 8 commands / 8 image sizes around multiples of the '
+            'chunk size; packets, chunk boundaries, callback calls, return values and exception classes compared with the model', 
+            'trusted: TLC, the scripted fake bootloader; chunk size set through the module constant that the --fastboot_download_chunk_size_kb flag targets', 'DESIGN.md 5/C16'),
 })
 
 NOT_APPLICABLE = {
